@@ -35,8 +35,21 @@ case_strategy = st.fixed_dictionaries({
 })
 
 
+def cells():
+    from gens.spelling import STYLES
+    for d in ("A", "B"):
+        for alg in gk.JWS_ALGS:
+            for ser in jp.SERS:
+                for b64 in ([None] if ser == "general" else [None, True, False]):
+                    for style in (STYLES if d == "B" else ["-"]):
+                        yield (d, alg, ser, b64, style)
+
+
 def shards(tier):
-    return [("vectors", {"part": "vectors"})] + [(f"w{i:02d}", {"part": "gen", "i": i}) for i in range(16)]
+    out = [("vectors", {"part": "vectors"})] + [(f"w{i:02d}", {"part": "gen", "i": i}) for i in range(16)]
+    if tier == "thorough":
+        out += [(f"cells{i:02d}", {"part": "cells", "i": i, "n": 16}) for i in range(16)]
+    return out
 
 
 def _members_equal(ref_members, plan, f, tag, kidmode_members):
@@ -181,6 +194,16 @@ def run_shard(ctx, spec):
                          "spelling": styles, "protected": [m["protected"] for m in plan["members"]], "payload_hex": plan["payload_hex"][:40]})
         for k, w in f.items():
             ctx.finding(k, w, case)
+    if spec["part"] == "cells":
+        for j, (d, alg, ser, b64, style) in enumerate(cells()):
+            if j % spec["n"] != spec["i"] or ctx.expired():
+                continue
+            sp = st.tuples(st.just(style if style != "-" else "canonical"), st.integers(0, 2**32))
+            strat = st.fixed_dictionaries({"dir": st.just(d), "plan": jp.plans(sers=(ser,), algs=[alg], b64_choices=[b64], max_members=2, utf8_only=True),
+                                           "form": st.sampled_from(KEYFORMS), "spellings": st.lists(sp, min_size=3, max_size=3)})
+            drive(ctx, f"cell-{d}-{alg}-{ser}-{b64}-{style}", strat, body, 8)
+            ctx.count("cells-enumerated")
+        return
     drive(ctx, "wire", case_strategy, body, 110 if ctx.tier == "quick" else 1500)
 
 
